@@ -547,3 +547,200 @@ Section CollapseRows.
     destruct (pos y (sids o)); [apply entry_view_ctor|reflexivity].
   Qed.
 End CollapseRows.
+
+(* ---- conservation: the buckets hold every vector exactly once ---- *)
+Definition gsum (f : vrec -> Z) (g : list (Z * list vrec)) : Z :=
+  zsum (map (fun lb => zsum (map f (snd lb))) g).
+
+Lemma gsum_group_add f g l v : gsum f (group_add g l v) = (gsum f g + f v)%Z.
+Proof.
+  unfold gsum. induction g as [|[l0 b] r IH]; simpl; [lia|].
+  destruct (Z.eqb l l0); simpl.
+  - rewrite map_app, zsum_app. simpl. lia.
+  - rewrite IH. lia.
+Qed.
+
+Lemma gsum_fold f items : forall g,
+  gsum f (fold_left (group_step false) items g) = (gsum f g + zsum (map (fun lv => f (snd lv)) items))%Z.
+Proof.
+  induction items as [|[l v] items IH]; intros g; simpl; [lia|].
+  rewrite IH. unfold group_step at 1. simpl. rewrite gsum_group_add. lia.
+Qed.
+
+Lemma gsum_groups f labels (vs : list vrec) :
+  length labels = length vs -> gsum f (groups labels vs false) = zsum (map f vs).
+Proof.
+  intros H. unfold groups. rewrite gsum_fold. unfold gsum at 1. simpl.
+  rewrite <- (map_map snd f). rewrite map_snd_combine by exact H. reflexivity.
+Qed.
+
+Lemma filter_all {A} (p : A -> bool) l : (forall x, In x l -> p x = true) -> filter p l = l.
+Proof.
+  induction l as [|x l IH]; simpl; intros H; [reflexivity|].
+  rewrite (H x) by (left; reflexivity). f_equal. apply IH. intros y Hy. apply H. right. exact Hy.
+Qed.
+
+Lemma cr_conserves o labels norm min_group incl c y j :
+  wf o -> length labels = nobs o -> collapse_rows o labels norm min_group incl = ROk c ->
+  (min_group <= 1)%Z -> pos y (sids o) = Some j ->
+  zsum (map (fun l => cell0 (ctab c) l y) (oids (ctab c))) = zsum (map (fun x => cell0 o x y) (oids o)).
+Proof.
+  intros W Hl Hc Hm Hj.
+  destruct (cr_ids o labels norm min_group incl c Hc) as (E1 & _). rewrite E1.
+  set (f := fun v : vrec => cell0 o (v_id v) y).
+  destruct (vrecs_facts o W) as (V1 & V2 & _).
+  assert (Ll : length labels = length (vrecs o)) by (rewrite V1; exact Hl).
+  assert (Eg : kept_groups o labels min_group = groups labels (vrecs o) false).
+  { unfold kept_groups. apply filter_all. intros [l b] Hg.
+    destruct (groups_spec labels (vrecs o) false Ll) as (_ & _ & G3). cbv zeta in G3.
+    destruct (G3 l b Hg) as (_ & Hne & _). unfold big_enough. simpl. apply Z.leb_le.
+    destruct b; [contradiction|]. simpl length. lia. }
+  transitivity (gsum f (kept_groups o labels min_group)).
+  - unfold gsum. rewrite map_map. f_equal. apply map_ext_in. intros [l b] Hg. cbn [fst snd].
+    unfold cell0 at 1. rewrite (cr_cell o labels norm min_group incl c W Hl Hc l b y j Hg Hj).
+    destruct (cr_group o labels min_group W Hl l b Hg) as (_ & Em & _). rewrite <- Em, map_map. reflexivity.
+  - rewrite Eg, gsum_groups by exact Ll. unfold f. rewrite <- (map_map v_id (fun x => cell0 o x y)), V2. reflexivity.
+Qed.
+
+(* ---------------------------------------------------------------- collapse one-to-one, any axis *)
+Definition mode_ok (mode : Z) : bool := Z.eqb mode 0 || Z.eqb mode 1.
+
+Lemma collapse_o2o_inv t a lab min_group norm incl mode c :
+  collapse_t t a (OneToOne lab min_group) norm incl mode = ROk c ->
+  mode_ok mode = true /\ lab_error lab = None /\
+  exists c', collapse_rows (orient a t) (labels_of lab (ids a t)) norm min_group incl = ROk c' /\
+             c = mkC (orient a (ctab c')) (cdiv c').
+Proof.
+  unfold collapse_t. fold (mode_ok mode). destruct (mode_ok mode); cbn [negb]; [|discriminate].
+  destruct (lab_error lab); [discriminate|]. rewrite oids_orient.
+  destruct (collapse_rows (orient a t) (labels_of lab (ids a t)) norm min_group incl) as [c'|e]; [|discriminate].
+  intros H. inversion H. repeat split. exists c'. split; reflexivity.
+Qed.
+
+Lemma md_of_orient_back a t x : md_of a (orient a t) x = md_of Obs t x.
+Proof. unfold md_of, md_at. rewrite ids_orient_back, mds_orient_back. reflexivity. Qed.
+
+Section CollapseAxis.
+  Variables (t : table) (a : axis) (lab : labelling) (min_group : Z) (norm incl : bool) (mode : Z) (c : collapsed).
+  Hypothesis W : wf t.
+  Hypothesis Hc : collapse_t t a (OneToOne lab min_group) norm incl mode = ROk c.
+  Let labels := labels_of lab (ids a t).
+  Let members (l : Z) := select (map (Z.eqb l) labels) (ids a t).
+
+  Lemma ca_setup :
+    exists c', collapse_rows (orient a t) labels norm min_group incl = ROk c' /\
+               c = mkC (orient a (ctab c')) (cdiv c') /\ wf (orient a t) /\
+               length labels = nobs (orient a t) /\ oids (orient a t) = ids a t.
+  Proof.
+    destruct (collapse_o2o_inv _ _ _ _ _ _ _ _ Hc) as (_ & LE & c' & H1 & H2).
+    exists c'. repeat split; try assumption.
+    - apply wf_orient; exact W.
+    - unfold nobs. rewrite oids_orient. apply labels_of_length. exact LE.
+    - apply oids_orient.
+  Qed.
+
+  Theorem collapse_ids :
+    NoDup (ids a (ctab c)) /\
+    (forall l, In l (ids a (ctab c)) <-> In l labels /\ (min_group <= Z.of_nat (length (members l)))%Z) /\
+    ids (other a) (ctab c) = ids (other a) t /\
+    (forall y, md_view (other a) (ctab c) y = md_view (other a) t y) /\
+    ttype (ctab c) = ttype t /\ wf (ctab c) /\ length (cdiv c) = length (ids a (ctab c)).
+  Proof.
+    destruct ca_setup as (c' & H1 & -> & Wo & Ll & Eo). cbn [ctab cdiv].
+    destruct (cr_ids _ _ _ _ _ _ H1) as (I1 & I2 & I3).
+    rewrite ids_orient_back, ids_other_orient_back, I1, I2, ttype_orient, I3, ttype_orient, sids_orient.
+    split; [apply (cr_keys_NoDup _ _ _ Wo Ll)|]. split.
+    { intros l. rewrite (cr_keys _ _ _ Wo Ll l). rewrite Eo. reflexivity. }
+    split; [reflexivity|]. split.
+    { intros y. rewrite md_view_orient_back_other. rewrite (cr_other_md _ _ _ _ _ _ H1). apply md_view_orient_other. }
+    split; [reflexivity|]. split; [apply wf_orient; apply (cr_wf _ _ _ _ _ _ Wo Ll H1)|].
+    rewrite (collapse_rows_inv _ _ _ _ _ _ H1). cbv zeta. cbn [cdiv]. rewrite !map_length. reflexivity.
+  Qed.
+
+  Theorem collapse_sum l y :
+    In l (ids a (ctab c)) -> In y (ids (other a) t) ->
+    cellx a (ctab c) l y = Some (zsum (map (fun x => cellx0 a t x y) (members l))).
+  Proof.
+    destruct ca_setup as (c' & H1 & -> & Wo & Ll & Eo). cbn [ctab]. intros Hin Hy.
+    destruct (cr_ids _ _ _ _ _ _ H1) as (I1 & I2 & I3).
+    rewrite ids_orient_back, I1 in Hin. apply in_map_iff in Hin. destruct Hin as [[l' b] [E Hg]]. simpl in E. subst l'.
+    rewrite <- sids_orient in Hy. destruct (pos_In _ _ Hy) as [j Hj].
+    rewrite cellx_orient by (apply (cr_wf _ _ _ _ _ _ Wo Ll H1)).
+    rewrite (cr_cell _ _ _ _ _ _ Wo Ll H1 l b y j Hg Hj). rewrite Eo. f_equal. f_equal.
+    apply map_ext. intros x. unfold cell0. rewrite cell_orient by exact W. reflexivity.
+  Qed.
+
+  Theorem collapse_divisor k l :
+    nth_error (ids a (ctab c)) k = Some l ->
+    nth_error (cdiv c) k = Some (if norm then Z.of_nat (length (members l)) else 1%Z).
+  Proof.
+    destruct ca_setup as (c' & H1 & -> & Wo & Ll & Eo). cbn [ctab cdiv]. intros H.
+    destruct (cr_ids _ _ _ _ _ _ H1) as (I1 & _). rewrite ids_orient_back, I1 in H.
+    rewrite (cr_div _ _ _ _ _ _ Wo Ll H1 k l H). rewrite Eo. reflexivity.
+  Qed.
+
+  Theorem collapse_members l :
+    incl = true -> In l (ids a (ctab c)) -> md_of a (ctab c) l = Some (collapsed_md (members l)).
+  Proof.
+    destruct ca_setup as (c' & H1 & -> & Wo & Ll & Eo). cbn [ctab]. intros Hi Hin.
+    destruct (cr_ids _ _ _ _ _ _ H1) as (I1 & _). rewrite ids_orient_back, I1 in Hin.
+    rewrite md_of_orient_back. rewrite (cr_md _ _ _ _ _ _ Wo Ll H1 l Hi Hin). rewrite Eo. reflexivity.
+  Qed.
+
+  Theorem collapse_no_md : incl = false -> mds a (ctab c) = None.
+  Proof.
+    destruct ca_setup as (c' & H1 & -> & _). cbn [ctab]. intros Hi.
+    rewrite mds_orient_back. apply (cr_md_off _ _ _ _ _ _ H1 Hi).
+  Qed.
+
+  Theorem collapse_conserves y :
+    (min_group <= 1)%Z -> In y (ids (other a) t) ->
+    zsum (map (fun l => cellx0 a (ctab c) l y) (ids a (ctab c))) =
+    zsum (map (fun x => cellx0 a t x y) (ids a t)).
+  Proof.
+    destruct ca_setup as (c' & H1 & -> & Wo & Ll & Eo). cbn [ctab]. intros Hm Hy.
+    rewrite <- sids_orient in Hy. destruct (pos_In _ _ Hy) as [j Hj].
+    rewrite ids_orient_back.
+    pose proof (cr_conserves _ _ _ _ _ _ y j Wo Ll H1 Hm Hj) as K. rewrite Eo in K.
+    transitivity (zsum (map (fun l => cell0 (ctab c') l y) (oids (ctab c')))).
+    - f_equal. apply map_ext. intros l. unfold cellx0. rewrite cellx_orient by (apply (cr_wf _ _ _ _ _ _ Wo Ll H1)). reflexivity.
+    - rewrite K. f_equal. apply map_ext. intros x. unfold cell0. rewrite cell_orient by exact W. reflexivity.
+  Qed.
+End CollapseAxis.
+
+(* when is a one-to-one collapse refused *)
+Theorem collapse_o2o_refuses t a lab min_group norm incl mode e :
+  wf t ->
+  (collapse_t t a (OneToOne lab min_group) norm incl mode = RErr e <->
+   (mode_ok mode = false /\ e = E_VALUE) \/
+   (mode_ok mode = true /\ lab_error lab = Some e) \/
+   (mode_ok mode = true /\ lab_error lab = None /\ e = E_TABLE /\ ids (other a) t <> [] /\
+    forall l, In l (labels_of lab (ids a t)) ->
+      (Z.of_nat (length (select (map (Z.eqb l) (labels_of lab (ids a t))) (ids a t))) < min_group)%Z)).
+Proof.
+  intros W. unfold collapse_t. fold (mode_ok mode). destruct (mode_ok mode); cbn [negb].
+  2:{ split; [intros H; inversion H; left; split; reflexivity|].
+      intros [[_ ->]|[[H _]|[H _]]]; [reflexivity|discriminate|discriminate]. }
+  destruct (lab_error lab) as [e'|] eqn:LE.
+  { split; [intros H; inversion H; right; left; split; reflexivity|].
+    intros [[H _]|[[_ H]|(_ & H & _)]]; [discriminate|inversion H; reflexivity|discriminate]. }
+  rewrite oids_orient.
+  assert (Wo : wf (orient a t)) by (apply wf_orient; exact W).
+  assert (Ll : length (labels_of lab (ids a t)) = nobs (orient a t))
+    by (unfold nobs; rewrite labels_of_length by exact LE; rewrite oids_orient; reflexivity).
+  destruct (collapse_rows (orient a t) (labels_of lab (ids a t)) norm min_group incl) as [c'|e'] eqn:CR.
+  - split; [discriminate|]. intros [[H _]|[[_ H]|(_ & _ & _ & Hne & Hall)]]; try discriminate.
+    exfalso. assert (collapse_rows (orient a t) (labels_of lab (ids a t)) norm min_group incl = RErr E_TABLE) as K; [|congruence].
+    apply collapse_rows_refuses. split; [|split; [rewrite sids_orient; exact Hne|reflexivity]].
+    destruct (kept_groups (orient a t) (labels_of lab (ids a t)) min_group) as [|[l b] r] eqn:KG; [reflexivity|].
+    assert (In l (map fst (kept_groups (orient a t) (labels_of lab (ids a t)) min_group))) as Hin by (rewrite KG; left; reflexivity).
+    apply (cr_keys _ _ _ Wo Ll) in Hin. destruct Hin as [Hin Hm]. specialize (Hall l Hin). rewrite oids_orient in Hm. lia.
+  - apply collapse_rows_refuses in CR. destruct CR as (KG & Hne & ->). split.
+    + intros H. inversion H; subst e. right. right. repeat split; try reflexivity.
+      * rewrite <- sids_orient. exact Hne.
+      * intros l Hin. destruct (Z.lt_ge_cases (Z.of_nat (length (select (map (Z.eqb l) (labels_of lab (ids a t))) (ids a t)))) min_group) as [Hlt|Hge]; [exact Hlt|].
+        exfalso. assert (In l (map fst (kept_groups (orient a t) (labels_of lab (ids a t)) min_group))) as Hk.
+        { apply (cr_keys _ _ _ Wo Ll). rewrite oids_orient. split; assumption. }
+        rewrite KG in Hk. destruct Hk.
+    + intros [[H _]|[[_ H]|(_ & _ & -> & _)]]; [discriminate|discriminate|reflexivity].
+Qed.
